@@ -109,6 +109,11 @@ pub trait ExSeek {
             r is Err ==> (*final(self)).sfail() == (*old(self)).sfail() + 1 && (*final(self)).spos() == (*old(self)).spos();
 }
 
+// A6: `for x in s` with `s: &mut [T]` desugars to `<&mut [T] as IntoIterator>::into_iter(s)`, which is
+// `s.iter_mut()` in std; vstd specifies `iter_mut` but not this impl.
+pub assume_specification<'a, T>[<&'a mut [T] as IntoIterator>::into_iter](s: &'a mut [T]) -> (r: std::slice::IterMut<'a, T>)
+    ensures call_ensures(<[T]>::iter_mut, (s,), r);
+
 // A destination that is both Write and Seek has ONE cursor, ONE content, one failure counter.
 pub uninterp spec fn ws_linked<T: Write + Seek>(t: &T) -> bool;
 pub broadcast axiom fn ax_ws_pos<T: Write + Seek>(t: &T)
